@@ -87,7 +87,7 @@ func verifFieldExtent(buf []byte, n, o int, f verifField) (start, length int, ok
 		}
 		l := int(rd8(buf, o))
 		verifAssume(l < 255)
-		verifAssume(l <= 6)
+		verifAssume(l <= verifParam("maxvar", 6))
 		return o + 1, l, o+1+l <= n
 	case 3:
 		if o+1 > n {
@@ -98,7 +98,7 @@ func verifFieldExtent(buf []byte, n, o int, f verifField) (start, length int, ok
 			return 0, 0, false
 		}
 		l := int(rd16(buf, o+1))
-		verifAssume(l <= 6)
+		verifAssume(l <= verifParam("maxvar", 6))
 		return o + 3, l, o+3+l <= n
 	}
 	return o, int(f.spec.Length), o+int(f.spec.Length) <= n
@@ -193,7 +193,10 @@ func VerifIPFIXRecord() {
 		var t FieldType
 		if i == 0 {
 			// split over the type of the first field: all 21 values, or (typeset=1) a representative subset
-			if verifParam("typeset", 0) == 1 {
+			if verifParam("typeset", 0) == 2 {
+				// the two variable-length types (used with values of any announceable length)
+				t = [2]FieldType{String, OctetArray}[verifSplit(2)]
+			} else if verifParam("typeset", 0) == 1 {
 				sub := [6]FieldType{Boolean, Uint16, Float32, String, Ipv6Address, OctetArray}
 				t = sub[verifSplit(6)]
 			} else {
@@ -216,7 +219,7 @@ func VerifIPFIXRecord() {
 		}
 	}
 	n := verifNondetInt()
-	verifAssume(verifAll(n >= 0, n <= 64))
+	verifAssume(verifAll(n >= 0, n <= verifParam("maxbuf", 64)))
 	buf := verifNondetBytes(n)
 	pos := verifNondetInt()
 	verifAssume(verifAll(pos >= 0, pos <= n))
